@@ -17,16 +17,19 @@ Definition corr_rot (rot : bool) (c : case) : bool :=
       Bool.eqb (settled_b s) (ob_settled ob) && gauges_ok s ob &&
       forallb (fun o => ch_routing_ok s o && ch_pres_ok s o) (ob_chs ob)
   end.
-Definition corr (c : case) : bool := corr_rot false c || corr_rot true c.
+(* cases marked CNoModel (connect-time server-side subscriptions, keyed tracking) have no model run: they
+   are judged by the oracle only *)
+Definition corr (c : case) : bool := no_model c || corr_rot false c || corr_rot true c.
 
 (* the property on the observed settled state of a CLOSED connection: no context, no routing
    entry, no presence entry, not registered (clients and users maps), connection gauge back to
    its value before the connection (0: no other connection is ever registered in these runs),
-   subscription gauge = the other connections' entries only *)
+   subscription gauge = the other connections' entries only, no tracked key registered for it in the
+   shared poll manager *)
 Definition oracle (c : case) : bool :=
   let ob := cs_obs c in
   negb (ob_settled ob && (ob_status ob =? 3)) ||
-  (negb (ob_reg ob) && (ob_gconn ob =? 0)%Z &&
+  (negb (ob_reg ob) && (ob_gconn ob =? 0)%Z && (ob_extra ob =? 0) &&
    (ob_gsub ob =? fold_left (fun z o => (z + Z.of_N (co_nsubs o))%Z) (ob_chs ob) 0%Z)%Z &&
    forallb (fun o => match co_ctx o, co_hub o with None, None => true | _, _ => false end &&
                      negb (co_pres o) && negb (co_issub o) && (co_deliv o =? 0)) (ob_chs ob)).
